@@ -36,6 +36,9 @@ CHECKS = {
  "C10": dict(cat="exploration", tech="exhaustive enumeration of Exp trees up to a size bound over every constructor x 72 assignments, rewrites judged by an exact reference evaluator; exhaustive (template x constant x spelling) twin compilation",
    text="Part A: every Exp tree with <= 2 operator nodes (thorough: full leaf alphabet and size 3 over a reduced alphabet, 42M trees) is rewritten by simplify, flatten and both compositions; at every assignment where the original is defined the rewrite must be defined and equal, simplify must be idempotent, and a division whose denominator is zero or not constant must survive. Part B: 7 templates x 6 constants x 12 spellings (incl. where- and API-supplied constants) must compile to identical or exactly equivalent linear models, or be rejected alike.",
    note="Trusted: exact strict reference evaluator (truthy iff non-zero); assignments at which a non-constant logic operand is not 0/1 are outside the language and skipped; f64 folding of non-dyadic constants tolerated at 1e-12.", ref="4/C10"),
+ "C18": dict(cat="exploration", tech="deviation-bounded exhaustive exploration of the whole pipeline in watchdog-guarded worker subprocesses: corpus (0 deviations), every single token-level mutation (1), pairs within a line (2, thorough), every nesting construct at every depth 1..64, all strings of length <= 3 over a 24-symbol alphabet in 5 slots",
+   text="Every public stage (parse, format, type check, token map, transform, linearize, all renderings, standardise, tableau simplex, auto solver, one-shot solver, every error renderer) is run on every generated text under catch_unwind inside worker subprocesses with an 8 MiB stack, a 3 GiB address-space limit and an 8 s per-case watchdog; a panic, abort, stack overflow, allocation failure, timeout or failing error rendering is a violation attributed to the stage and mutation class.",
+   note="Trusted: the mutation lexer and the subprocess/watchdog machinery. Does not cover arbitrary byte noise beyond length 3 (sampling is outside the technique) nor inputs larger than the corpus programs.", ref="4/C18"),
 }
 NA_REASON = "engine not built yet in this round (planned, see DESIGN.md section 4); not claimed until its check exists"
 ALL = ["C%02d" % i for i in range(1, 21)]
